@@ -584,6 +584,8 @@ class Interp:
                     x = None
                     parts.append("<?>")
                     continue
+                if isinstance(x, SEnumMember):
+                    x = f"{x.cls.qualname}.{x.name}"  # Enum.__format__ == str(member) since Python 3.12
                 if isinstance(x, (str, int, float, bool)) or x is None:
                     if v.format_spec is not None:
                         parts.append("<fmt>")
@@ -1166,6 +1168,8 @@ class Interp:
         return libmodels.get_attr(self, obj, name, node)
 
     def get_item(self, base, key, node, frame):
+        if isinstance(base, SEnumMember) and getattr(base.cls, "str_enum", False):
+            base = base.value  # a (str, Enum) member IS its value for str operations
         if isinstance(base, (list, tuple, str)):
             if isinstance(key, (int, slice)) and not isinstance(key, bool):
                 if isinstance(key, slice) and any(is_z3(x) for x in (key.start, key.stop, key.step)):
